@@ -10,8 +10,10 @@ JOINTS_ORI = ["Spherical", "Revolute", "RigidConnection", "Prismatic", "Cylindri
 
 
 def build_chain(rng, nbodies=None, closed=False, base="origin", springs=True, point_masses=True, joint_kinds=None,
-                gravity=True, t0=0.0, initial_velocity=False, actuators=False, rest_start=False):
+                gravity=True, t0=0.0, initial_velocity=False, actuators=False, rest_start=False, mass_scale=1.0):
     """chain base - j1 - b1 - j2 - b2 ... (optionally closed by a spherical joint back to the base).
+    mass_scale multiplies every mass, inertia, stiffness, damping and actuator torque: the motion is the same, all forces
+    and multipliers scale with it.
     Bodies start at rest unless the base is a moving frame, in which case the whole chain moves rigidly
     with the frame at t0 (consistent with every joint). Returns (system, info)."""
     from cardillo import System
@@ -40,11 +42,11 @@ def build_chain(rng, nbodies=None, closed=False, base="origin", springs=True, po
         jk = kinds[int(rng.integers(len(kinds)))]
         if is_pm:
             jk = ["Spherical", "FixedDistance"][int(rng.integers(2))]
-            b = PointMass(float(loguniform(rng, 0.3, 3)), q0=pos, u0=np.zeros(3), name=f"pm{i}")
+            b = PointMass(float(loguniform(rng, 0.3, 3)) * mass_scale, q0=pos, u0=np.zeros(3), name=f"pm{i}")
         else:
             P = rng.normal(size=4); P /= np.linalg.norm(P)
-            m = float(loguniform(rng, 0.3, 3))
-            b = RigidBody(m, gen.random_spd(rng, 3, 0.02, 0.3), q0=np.concatenate([pos, P]), u0=np.zeros(6), name=f"b{i}")
+            m = float(loguniform(rng, 0.3, 3)) * mass_scale
+            b = RigidBody(m, gen.random_spd(rng, 3, 0.02, 0.3) * mass_scale, q0=np.concatenate([pos, P]), u0=np.zeros(6), name=f"b{i}")
         if mot is not None:
             # rigid motion with the base frame at t0
             A_f = mot.A(t0) if mot.rotating else mot.A0
@@ -72,13 +74,13 @@ def build_chain(rng, nbodies=None, closed=False, base="origin", springs=True, po
         S.add(b, j)
         if actuators and jk == "Revolute" and rng.random() < 0.7:
             from cardillo.actuators import Motor, PDcontroller
-            a_, w_ = float(rng.normal() * 3), float(rng.uniform(0.5, 3))
+            a_, w_ = float(rng.normal() * 3) * mass_scale, float(rng.uniform(0.5, 3))
             if rng.random() < 0.5:
                 act = Motor(j, (lambda t, a_=a_, w_=w_: a_ * np.cos(w_ * t)) if rng.random() < 0.5 else a_)
                 info.setdefault("actuators", []).append("Motor")
             else:
-                act = PDcontroller(j, float(loguniform(rng, 1, 30)), float(loguniform(rng, 0.1, 3)),
-                                   lambda t, a_=a_, w_=w_: np.array([0.2 * a_ * np.sin(w_ * t), 0.2 * a_ * w_ * np.cos(w_ * t)]))
+                act = PDcontroller(j, float(loguniform(rng, 1, 30)) * mass_scale, float(loguniform(rng, 0.1, 3)) * mass_scale,
+                                   lambda t, a_=a_ / mass_scale, w_=w_: np.array([0.2 * a_ * np.sin(w_ * t), 0.2 * a_ * w_ * np.cos(w_ * t)]))
                 info.setdefault("actuators", []).append("PD")
             act.name = f"act{i}"
             S.add(act)
@@ -96,13 +98,13 @@ def build_chain(rng, nbodies=None, closed=False, base="origin", springs=True, po
             b = bodies[int(rng.integers(len(bodies)))]
             tpi = TwoPointInteraction(root, b, B_r_CP1=rng.normal(size=3) * 0.3 + np.array([0.0, 0.0, 1.0]))
             law = int(rng.integers(3))
-            kk = float(loguniform(rng, 5, 200))
+            kk = float(loguniform(rng, 5, 200)) * mass_scale
             if law == 0:
                 e = Spring(tpi, kk, l_ref=float(rng.uniform(0.5, 1.5)), compliance_form=False, name=f"spring{k}")
             elif law == 1:
                 e = Spring(tpi, kk, l_ref=float(rng.uniform(0.5, 1.5)), compliance_form=True, name=f"spring{k}")
             else:
-                e = KelvinVoigtElement(tpi, kk, float(loguniform(rng, 0.1, 5)), l_ref=float(rng.uniform(0.5, 1.5)), compliance_form=bool(rng.random() < 0.5), name=f"kv{k}")
+                e = KelvinVoigtElement(tpi, kk, float(loguniform(rng, 0.1, 5)) * mass_scale, l_ref=float(rng.uniform(0.5, 1.5)), compliance_form=bool(rng.random() < 0.5), name=f"kv{k}")
             S.add(e)
             info.setdefault("laws", []).append(["Spring:force", "Spring:compliance", "KelvinVoigt"][law])
     rb_ = [b for b in bodies if not isinstance(b, PointMass)]
@@ -111,6 +113,6 @@ def build_chain(rng, nbodies=None, closed=False, base="origin", springs=True, po
         # the two generalized forces cancel, the motion is the one without it)
         b = rb_[int(rng.integers(len(rb_)))]
         tpi = TwoPointInteraction(b, b, B_r_CP1=rng.normal(size=3) * 0.3, B_r_CP2=rng.normal(size=3) * 0.3)
-        S.add(Spring(tpi, float(loguniform(rng, 20, 200)), l_ref=float(rng.uniform(0.1, 0.3)), compliance_form=False, name="internal_spring"))
+        S.add(Spring(tpi, float(loguniform(rng, 20, 200)) * mass_scale, l_ref=float(rng.uniform(0.1, 0.3)), compliance_form=False, name="internal_spring"))
         info.setdefault("laws", []).append("Spring:force(same body)")
     return S, bodies, joints, info
